@@ -324,6 +324,8 @@ def sup_modes(cat, out, sup, rng):
         return ['zero']          # would be reinterpreted as pointers: zero payload only
     if out != sup and o['kind'] == 'strct' and s['kind'] == 'strct' and s['size'] == o['size'] and s['layout'] != o['layout'] and pointerish_layout(o['layout']):
         return ['zero']
+    if out != sup and o['kind'] == 'strct' and s['kind'] == 'strct' and s['size'] == o['size'] and pointerish_layout(o['layout']):
+        return ['zero']          # identical layout with pointer fields: the pointees may differ in type; nil pointers only
     return ['zero', 'rand']
 
 
@@ -625,7 +627,10 @@ def load_catalog():
                           env={'VERIF_C09_CATALOG': path})
     if rc != 0 or not os.path.exists(path):
         raise C.Infra('catalogue dump failed:\n' + log[-2000:])
-    return Cat([l.rstrip('\n') for l in open(path)])
+    cat = Cat([l.rstrip('\n') for l in open(path)])
+    if len(cat.names) < 90 or not cat.multis or not cat.pairs2 or not cat.variadics or not cat.meths:
+        raise C.Infra(f'catalogue dump is incomplete: {len(cat.names)} types, {len(cat.multis)} multi, {len(cat.pairs2)} pair2, {len(cat.variadics)} variadic, {len(cat.meths)} meth')
+    return cat
 
 
 def execute(ops, tag='c09'):
@@ -634,20 +639,44 @@ def execute(ops, tag='c09'):
     ops_path = os.path.join(C.BUILD, f'{tag}.ops')
     open(ops_path, 'w').write('\n'.join(ops) + '\n')
     raw = [None] * len(ops)
+    # the probes run in a scrubbed environment: goom's own knobs must not change what is observed
+    scrub = {'GOOM_DEBUG': '', 'GODEBUG': '', 'GOGC': '', 'GOTRACEBACK': 'single'}
     for ptag in ('c09-arg', 'c09-mocker'):
+        lanes = LANES_ARG if ptag == 'c09-arg' else LANES_MOCKER
+        mine = [i for i, op in enumerate(ops) if op.split()[0] in lanes]
         outp = os.path.join(C.BUILD, f'{tag}.{ptag}.impl')
-        rc, log = C.run_probe(bins[ptag], PROBE_TEST, ops_path, outp)
-        got = C.read_indexed(outp, len(ops))
+        for attempt in (1, 2):
+            # typical wall time is 1-3 s; the timeout is generous (>= 100x) and a failed run is repeated ONCE:
+            # a crash that reproduces is an observation, a hiccup that does not is not
+            try:
+                rc, log = C.run_probe(bins[ptag], PROBE_TEST, ops_path, outp, env=scrub, timeout=1800)
+            except Exception as e:      # timeout of the whole process
+                rc, log = -1, f'probe did not finish: {e}'
+            got = C.read_indexed(outp, len(ops))
+            if rc == 0 or attempt == 2:
+                break
+            C.log(f'probe {ptag} exited rc={rc} on attempt 1; running it once more\n{log[-600:]}')
         for i, v in enumerate(got):
             if v is not None:
                 raw[i] = v
         if rc != 0:
-            # a crash inside patched code / reflect kills the process: report the first op without an observation
-            lanes = LANES_ARG if ptag == 'c09-arg' else LANES_MOCKER
-            first = next((i for i, op in enumerate(ops) if op.split()[0] in lanes and raw[i] is None), None)
+            # reproduced: a crash inside patched code / reflect kills the process: the first op without an observation is the culprit
+            first = next((i for i in mine if raw[i] is None), None)
             if first is not None:
-                raw[first] = 'crash:' + C.sh(['tail', '-c', '300'], input=log)[1].replace('\n', ' ')[:200] if False else 'crash'
-            C.log(f'probe {ptag} exited rc={rc}; first unobserved op index {first}\n{log[-1500:]}')
+                raw[first] = 'crash'
+            C.log(f'probe {ptag} exited rc={rc} twice; first unobserved op index {first}\n{log[-1500:]}')
+        elif mine and any(raw[i] is None for i in mine):
+            n = sum(1 for i in mine if raw[i] is None)
+            raise C.Infra(f'probe {ptag} exited 0 but left {n} of {len(mine)} of its operations unobserved (machinery error, not a statement about the property)')
+    # floors: a lane that silently ran nothing must fail loudly
+    per_lane = {}
+    for i, op in enumerate(ops):
+        ln = op.split()[0]
+        a, b = per_lane.get(ln, (0, 0))
+        per_lane[ln] = (a + 1, b + (raw[i] is not None))
+    for ln, (n, seen) in per_lane.items():
+        if n >= 20 and seen < n // 2 and not any(r == 'crash' for r in raw):
+            raise C.Infra(f'lane {ln}: only {seen} of {n} operations observed (machinery error)')
     impl, facts = [], []
     for r in raw:
         if r is None:
@@ -740,17 +769,23 @@ def parse_op(cat, op):
     return {'lane': lane, 'outs': [], 'boxes': []}
 
 
-def payload_all_zero(toks):
+NEG_ZERO = str(1 << 63)
+
+
+def payload_all_zero(toks, neg_zero_is_zero=False):
     """every leaf of the payload is the all-zero-bits value (so the Go value is the zero value of its type)"""
+    zf = ('0', NEG_ZERO) if neg_zero_is_zero else ('0',)
     i = 0
     while i < len(toks):
         t = toks[i]
         if t == 'agg':
             i += 2
         elif t == 'c':
-            if toks[i + 1] != '0' or toks[i + 2] != '0':
+            if toks[i + 1] not in zf or toks[i + 2] not in zf:
                 return False
             i += 3
+        elif neg_zero_is_zero and t == 'f' + NEG_ZERO:
+            i += 1
         elif t in ('b0', 'i0', 'u0', 'f0', 's-', 'z', 'inil'):
             i += 1
         else:
@@ -897,6 +932,8 @@ def oracle(cat, op, obs, facts):
         if obs not in ('true', 'false'):
             return 'isZero did not return: ' + obs
         allzero = payload_all_zero(p['payload'])
+        if not allzero and payload_all_zero([t for t in p['payload']], neg_zero_is_zero=True):
+            return None     # only -0.0 leaves differ: V2I feeds isZero pointers/interfaces only, so either answer keeps the property
         if obs != str(allzero).lower():
             return f'isZero = {obs} on a value whose bits are {"all" if allzero else "not all"} zero'
         return None
